@@ -217,6 +217,10 @@ def layout(t):
     return r
 
 
+def is_bytes_struct(t):
+    return t.k == 'struct' and bool(t.name) and t.name.startswith('union.') and not t.opaque and len(t.fields) > 0
+
+
 def field_offset(t, idx):
     off = 0
     for i, f in enumerate(t.fields):
@@ -863,7 +867,13 @@ class Emitter:
                 body = ' '.join('%s f%d;' % (self.ct(f), i) for i, f in enumerate(t.fields))
                 if not t.fields:
                     body = ''
-                out.append('struct %s%s { %s };' % ('__attribute__((packed)) ' if t.packed else '', self.sname(t), body))
+                if is_bytes_struct(t):
+                    # unions (LLVM keeps only the largest member): a byte array, so that partial writes (std::string's
+                    # SSO buffer is `union { i64; [8 x i8] }`) stay element-wise constants during symbolic execution
+                    sz, al = layout(t)
+                    out.append('struct __attribute__((aligned(%d))) %s { uint8_t b[%d]; };' % (al, self.sname(t), sz))
+                else:
+                    out.append('struct %s%s { %s };' % ('__attribute__((packed)) ' if t.packed else '', self.sname(t), body))
                 if not t.name:
                     out.append('#define IR2C_HAVE_%s 1' % self.sname(t))
             elif t.k == 'arr':
@@ -973,6 +983,8 @@ class Emitter:
             items = ', '.join(str(b) for b in v.a)
             body = '{ { %s } }' % items
             return body if static else '((%s)%s)' % (self.ct(ty), body)
+        if k == 'cstruct' and is_bytes_struct(ty):
+            raise ValueError('constant of union type %s' % tystr(ty))
         if k == 'cstruct':
             body = '{ %s }' % ', '.join(self.cexpr(f, True) for f in v.a) if v.a else '{ }'
             return body if static else '((%s)%s)' % (self.ct(ty), body)
@@ -1039,6 +1051,11 @@ class Emitter:
         for ix in ops[2:]:
             if cur.k == 'struct':
                 assert ix.k == 'int'
+                if is_bytes_struct(cur):
+                    ft = cur.fields[ix.a]
+                    lv = '(*(%s*)&%s.b[%d])' % (self.ct(ft), lv, field_offset(cur, ix.a))
+                    cur = ft
+                    continue
                 lv = '%s.f%d' % (lv, ix.a)
                 cur = cur.fields[ix.a]
             elif cur.k == 'arr':
@@ -1265,7 +1282,7 @@ def join_instruction_lines(lines):
             continue
         cur = s
         if s.startswith('switch ') or ' switch ' in s[:20]:
-            while not cur.rstrip().endswith(']'):
+            while not (cur.rstrip().endswith(']') or lines[i].strip().startswith(']')):
                 i += 1
                 cur += ' ' + lines[i].strip()
         else:
@@ -1346,10 +1363,54 @@ class FnTranslator:
             for i_ in pi:
                 if i_.get('dest') is not None:
                     self.defs[i_['dest']] = i_
+        # typed heap allocation: the first non-i8 pointer type an operator-new result is bitcast to
+        self.new_type = {}
+        for lbl, pi in parsed:
+            for i_ in pi:
+                if i_['op'] == 'bitcast' and i_['v'].k == 'local' and i_['ty'].k == 'ptr':
+                    src = self.defs.get(i_['v'].a)
+                    if src is not None and src['op'] in ('call', 'invoke') and src['callee'][0] == 'global' and \
+                            src['callee'][1] in ('_Znwm', '_Znam') and i_['v'].a not in self.new_type:
+                        e = i_['ty'].elem
+                        if not (e.k == 'int' and e.w == 8) and e.k != 'void' and not (e.k == 'struct' and e.opaque) and e.k != 'fn':
+                            self.new_type[i_['v'].a] = e
         # collect phis per block
         for lbl, pi in parsed:
             ph = [i for i in pi if i['op'] == 'phi']
             self.phis[lbl] = ph
+        # lay the blocks out in reverse post-order so that only genuine loop back-edges are backward gotos (CBMC treats
+        # every backward goto as a loop to unwind; LLVM's block order contains many that are not)
+        succs = {}
+        for lbl, pi in parsed:
+            ss = []
+            if pi:
+                t_ = pi[-1]
+                if t_['op'] == 'br':
+                    ss = [t_['t']] + ([t_['e']] if t_['cond'] is not None else [])
+                elif t_['op'] == 'switch':
+                    ss = [t_['default']] + [l for _, l in t_['cases']]
+                elif t_['op'] == 'invoke':
+                    ss = [t_['normal'], t_['unwind']]
+            succs[lbl] = ss
+        order = []
+        seen = set()
+        stack = [(parsed[0][0], iter(succs[parsed[0][0]]))]
+        seen.add(parsed[0][0])
+        while stack:
+            node, it = stack[-1]
+            adv = False
+            for nx in it:
+                if nx not in seen and nx in succs:
+                    seen.add(nx)
+                    stack.append((nx, iter(succs[nx])))
+                    adv = True
+                    break
+            if not adv:
+                order.append(node)
+                stack.pop()
+        order.reverse()
+        byl = dict(parsed)
+        parsed = [(l, byl[l]) for l in order]   # unreachable blocks are dropped
         # emit
         for t, n, a in f.params:
             self.locals[n] = t
@@ -1829,6 +1890,8 @@ class FnTranslator:
             B.append('__IR2C_UNREACHABLE(); %s' % self.ret_default())
         elif op == 'extractvalue':
             v = ins['v']
+            if is_bytes_struct(v.ty):
+                raise ValueError('extractvalue on union value')
             e = em.cexpr(v)
             cur = v.ty
             for i in ins['idx']:
@@ -1916,6 +1979,20 @@ class FnTranslator:
                 if ins['op'] == 'invoke':
                     B.append(self.goto(ins['normal']))
                 return
+        elif name in ('_Znwm', '_Znam') and d is not None and d in self.new_type and 'M_' + name in em.modeled:
+            em.use_func(name)
+            t = self.new_type[d]
+            sz = args[0][0]
+            tsz = layout(t)[0]
+            ct = em.ct(t)
+            if tsz == 0:
+                call_expr = '(uint8_t*)%s(%s)' % (em.gname(name), em.cexpr(sz))
+            elif sz.k == 'int' and sz.a % tsz == 0 and sz.a // tsz >= 1:
+                call_expr = '(uint8_t*)IR2C_NEW_ARRAY(%s, %dULL)' % (ct, sz.a // tsz)
+            elif sz.k == 'int':
+                call_expr = '(uint8_t*)%s(%s)' % (em.gname(name), em.cexpr(sz))
+            else:
+                call_expr = '(uint8_t*)IR2C_NEW_DYN(%s, %s)' % (ct, em.cexpr(sz))
         elif name is not None:
             f = em.m.funcs.get(name)
             em.use_func(name)
@@ -2277,6 +2354,7 @@ def run(em, args):
                 gdecl.append('%s %s[8]; /* external vtable placeholder (address identity only) */' % (ct, c))
                 continue
             gdecl.append('%s %s; /* external object: zero-initialised placeholder */' % (ct, c))
+            gdecl.append('#define IR2C_HAVE_%s 1' % c)
         else:
             gdecl.append('%s %s;' % (ct, c))
             gdef.append('%s %s = %s;' % (ct, c, init))
@@ -2299,6 +2377,8 @@ def run(em, args):
         out.append(txt)
     # global init
     out.append('void __ir2c_global_init(void) {')
+    if 'M_ir2c_models_init' in em.modeled:
+        out.append('  M_ir2c_models_init();')
     if not args.no_global_init:
         for c in mod.ctors:
             if c in mod.funcs:
